@@ -140,7 +140,7 @@ def collect(pid, tier, seed, d, binp):
                 drifts=len(drifts) + unexplained, mc_info=mc_info, samples=samples, exported=len(scn_lines), modes=modes, count=count)
 
 
-WITH_BATCH = {"C02", "C04", "C18"}
+WITH_BATCH = {"C02", "C04", "C17", "C18"}
 
 
 def run(pid, tier, seed):
